@@ -29,7 +29,38 @@ func boundary(c *Ctx, keyBase string, fn [3]string, limitSym string, symIsLimit 
 		c.Lost(keyBase+".anchor", fmt.Sprintf("%s.%s.%s not found", fn[0], fn[1], fn[2]))
 		return
 	}
+	n := boundaryIn(c, keyBase, fd, limitSym, symIsLimit, rejectWhen, what, allowConst, 0)
+	if n < minSites {
+		// the comparison may live in a helper the function calls (and whose failure it propagates)
+		f := c.P.NewFuncCFG(fd)
+		seen := map[*types.Func]bool{fd.Obj: true}
+		var walk func(f *FuncCFG, depth int)
+		walk = func(f *FuncCFG, depth int) {
+			for _, hc := range f.helperCalls(c.P, nil) {
+				if seen[hc.fd.Obj] || n >= minSites {
+					continue
+				}
+				seen[hc.fd.Obj] = true
+				n += boundaryIn(c, keyBase, hc.fd, limitSym, symIsLimit, rejectWhen, what, allowConst, n)
+				if depth < 2 && n < minSites {
+					if hf := c.P.NewFuncCFG(hc.fd); hf != nil {
+						walk(hf, depth+1)
+					}
+				}
+			}
+		}
+		walk(f, 1)
+	}
+	if n < minSites {
+		c.Lost(keyBase+".sites", fmt.Sprintf("%s: %d comparisons with %s found (helpers included), expected at least %d", FuncKey(fd.Obj), n, limitSym, minSites))
+	}
+}
+
+func boundaryIn(c *Ctx, keyBase string, fd *FuncDecl, limitSym string, symIsLimit bool, rejectWhen, what string, allowConst bool, base int) int {
 	f := c.P.NewFuncCFG(fd)
+	if f == nil {
+		return 0
+	}
 	// accepting exits: `return true`, nil-error returns, falling off the end
 	accept := map[*cfg.Block]bool{}
 	for _, r := range f.OKReturns() {
@@ -74,7 +105,7 @@ func boundary(c *Ctx, keyBase string, fn [3]string, limitSym string, symIsLimit 
 				lx = !lx // sym names the quantity: the limit is the other side
 			}
 			n++
-			key := fmt.Sprintf("%s#%d", keyBase, n)
+			key := fmt.Sprintf("%s#%d", keyBase, base+n)
 			if ast.Unparen(cond) != ast.Expr(be) && ast.Unparen(cond) != at.e {
 				c.Unclassified(key, c.P.Pos(be.Pos()), "the comparison with the limit is part of a compound condition")
 				continue
@@ -123,9 +154,7 @@ func boundary(c *Ctx, keyBase string, fn [3]string, limitSym string, symIsLimit 
 			}
 		}
 	}
-	if n < minSites {
-		c.Lost(keyBase+".sites", fmt.Sprintf("%s: %d comparisons with %s found, expected at least %d", FuncKey(fd.Obj), n, limitSym, minSites))
-	}
+	return n
 }
 
 func reachesAny(f *FuncCFG, from *cfg.Block, targets map[*cfg.Block]bool) bool {
